@@ -156,6 +156,15 @@ func (c *Ctx) contentDerived(v ssa.Value) bool {
 					return true
 				}
 			}
+		case *ssa.Call:
+			// a pure predicate/classifier of the module applied to content (`isDigit(p[i])`) looks at content
+			if callee := x.Call.StaticCallee(); callee != nil && p.ownFunc(callee) && callee.Blocks != nil && p.isPure(callee, 0) {
+				for _, a := range x.Call.Args {
+					if walk(a) {
+						return true
+					}
+				}
+			}
 		}
 		return false
 	}
@@ -274,6 +283,9 @@ func ruleC08_2(c *Ctx) {
 					if ldx, ok := y.(*ssa.UnOp); ok && ldx.X == ssa.Value(invalid) && g.Truth {
 						okG = true
 					}
+				} else if c.contentDerived(g.Cond) {
+					// a pure predicate of the module applied to content that is present (`!isDigit(p[i])`)
+					okG = true
 				}
 				if !okG {
 					okAll = false
